@@ -331,7 +331,7 @@ func (*reader).Get
 // every non-head segment non-empty and entirely below the next base (I5); only the last is the head.
 
 pred logWf(l *log) :=
-    l != nil && len(l.readers) >= 1
+    l != nil && len(l.readers) >= 1 && len(l.readers) <= 1152921504606846976
     && (forall i :: 0 <= i && i < len(l.readers) ==> rdWf(l.readers[i]))
     && (forall i, j :: 0 <= i && i < j && j < len(l.readers) ==> l.readers[i] != l.readers[j]
                         && l.readers[i].segment.Offset < l.readers[j].segment.Offset)
